@@ -1,4 +1,4 @@
-from checks import mibcompile, oidindex, atomicwrite, searcher, readerlookup, history, oidtree, decls, refs, types
+from checks import mibcompile, oidindex, atomicwrite, searcher, readerlookup, history, oidtree, decls, refs, types, texts
 
 RULE_MC = ('scenario = terminal state of MibCompile.tla exported by TLC (request x lazily chosen answers of every '
            'component x options); non-trivial = at least one component answered with a failure / fresh / borrow; '
@@ -62,3 +62,6 @@ REGISTRY['C06'] = {'run': refs.run, 'replay': refs.replay, 'finish': {
 
 REGISTRY['C05'] = {'run': types.run, 'replay': types.replay, 'finish': {
     'rule': 'scenario = state of Types.tla: chain aspect (base x 0-3 derived types x assign/TC x refinement x imported x declaration order x DEFVAL), range/size aspect (1-3 alternatives over boundary values in decimal/hex/binary), named aspect (enumerations/BITS permutations, inline or through a TC), defval aspect (notation x base class x chain depth); distinct by scenario', 'exhaustive': False}}
+
+REGISTRY['C15'] = {'run': texts.run, 'replay': texts.replay, 'finish': {
+    'rule': 'scenario = state of Texts.tla: text-bearing clause x genTexts x text filter x text (sequence of <=2 (quick) / <=3 (thorough) character classes out of 16); non-trivial = non-empty text; distinct by scenario', 'exhaustive': False}}
